@@ -18,3 +18,54 @@ package cache
 //@   relational ensures result1 == result2 && result1 != "" ==> q1.Question[0].Qtype == q2.Question[0].Qtype
 //@   relational ensures result1 == result2 && result1 != "" ==> q1.Question[0].Qclass == q2.Question[0].Qclass
 //@   relational ensures result1 == result2 && result1 != "" ==> q1.AuthenticatedData == q2.AuthenticatedData && q1.CheckingDisabled == q2.CheckingDisabled && doBit(q1) == doBit(q2)
+
+// ---------------------------------------------------------------------------
+// C05: admission rules and lifetimes (saveRespToCache), ageing on a hit (getRespFromCache).
+
+// a cache entry: never modified after it is built (the stored message is private to the cache, C10)
+//@ type item
+//@   immutable resp, storedTime, expirationTime
+//@   invariant self.resp != nil
+
+//@ func min [C05]
+//@   ensures result == ite(a < b, a, b)
+
+// lifetime in seconds the property allows for a reply with rcode rc, na answer
+// records and smallest TTL mt: NXDOMAIN 30, SERVFAIL 5, empty NOERROR min(300, mt),
+// NOERROR with answers mt, anything else 0 (= never stored).
+//@ spec func lifetime(rc int, na int, mt int) int = ite(rc == 3, 30, ite(rc == 2, 5, ite(rc == 0, ite(na == 0, ite(mt < 300, mt, 300), mt), 0)))
+
+//@ func saveRespToCache [C05, C10]
+//@   requires r != nil && backend != nil
+//@   modifies *
+//@   requires lazyCacheTtl <= 9223372036
+//@   ensures old(r.Truncated) ==> !result
+//@   ensures calls(GetMinimalTTL) <= 1 && (calls(GetMinimalTTL) == 1 ==> arg(GetMinimalTTL, 0, 0) == r)
+//@   ensures old(r.Rcode) != 0 && old(r.Rcode) != 2 && old(r.Rcode) != 3 ==> !result
+//@   ensures old(r.Rcode) == 0 && !old(r.Truncated) ==> calls(GetMinimalTTL) == 1 && result == (lifetime(0, old(len(r.Answer)), ret(GetMinimalTTL, 0)) > 0 && (old(len(r.Answer)) == 0 || lazyCacheTtl <= 0 || lazyCacheTtl > 0))
+//@   ensures (old(r.Rcode) == 2 || old(r.Rcode) == 3) && !old(r.Truncated) ==> result
+//@   ensures !result ==> calls(cacheStore) == 0
+//@   ensures result ==> calls(cacheStore) == 1 && calls(copyNoOpt) == 1 && calls(timeNow) == 1 && arg(copyNoOpt, 0, 0) == r && arg(cacheStore, 0, 0) == backend
+//@   ensures result ==> atcall(cacheStore, 0, arg(cacheStore, 0, 2).resp == ret(copyNoOpt, 0) && arg(cacheStore, 0, 2).storedTime == ret(timeNow, 0))
+//@   ensures result && old(r.Rcode) != 0 ==> atcall(cacheStore, 0, arg(cacheStore, 0, 2).expirationTime.ns == ret(timeNow, 0).ns + lifetime(old(r.Rcode), 0, 0) * 1000000000) && arg(cacheStore, 0, 3).ns == ret(timeNow, 0).ns + lifetime(old(r.Rcode), 0, 0) * 1000000000
+//@   ensures result && old(r.Rcode) == 0 ==> atcall(cacheStore, 0, arg(cacheStore, 0, 2).expirationTime.ns == ret(timeNow, 0).ns + lifetime(0, old(len(r.Answer)), ret(GetMinimalTTL, 0)) * 1000000000)
+//@   ensures result && old(r.Rcode) == 0 && (old(len(r.Answer)) == 0 || lazyCacheTtl <= 0) ==> arg(cacheStore, 0, 3).ns == ret(timeNow, 0).ns + lifetime(0, old(len(r.Answer)), ret(GetMinimalTTL, 0)) * 1000000000
+//@   ensures result && old(r.Rcode) == 0 && old(len(r.Answer)) > 0 && lazyCacheTtl > 0 ==> arg(cacheStore, 0, 3).ns == ret(timeNow, 0).ns + lazyCacheTtl * 1000000000
+
+//@ func getRespFromCache [C05, C10]
+//@   requires backend != nil
+//@   modifies *
+//@   ensures calls(cacheGet) == 1 && arg(cacheGet, 0, 0) == backend
+//@   ensures ret(cacheGet, 0, 0) == nil ==> result_0 == nil && !result_1 && calls(msgCopy) == 0
+//@   ensures ret(cacheGet, 0, 0) != nil ==> calls(timeNow) == 1
+//@   ensures ret(cacheGet, 0, 0) != nil && aftercall(cacheGet, 0, ret(timeNow, 0).ns < ret(cacheGet, 0, 0).expirationTime.ns) ==> !result_1 && calls(msgCopy) == 1 && result_0 == ret(msgCopy, 0) && arg(msgCopy, 0, 0) == aftercall(cacheGet, 0, ret(cacheGet, 0, 0).resp) && calls(SubtractTTL) == 1 && arg(SubtractTTL, 0, 0) == result_0 && calls(SetTTL) == 0
+//@   ensures ret(cacheGet, 0, 0) != nil && aftercall(cacheGet, 0, ret(timeNow, 0).ns < ret(cacheGet, 0, 0).expirationTime.ns) ==> arg(SubtractTTL, 0, 1) == f2i_uint32(fsecs(ret(timeNow, 0).ns - aftercall(cacheGet, 0, ret(cacheGet, 0, 0).storedTime.ns)))
+//@   ensures ret(cacheGet, 0, 0) != nil && !aftercall(cacheGet, 0, ret(timeNow, 0).ns < ret(cacheGet, 0, 0).expirationTime.ns) && lazyCacheEnabled ==> result_1 && calls(msgCopy) == 1 && result_0 == ret(msgCopy, 0) && calls(SetTTL) == 1 && arg(SetTTL, 0, 0) == result_0 && arg(SetTTL, 0, 1) == uint32(lazyTtl) && calls(SubtractTTL) == 0
+//@   ensures ret(cacheGet, 0, 0) != nil && !aftercall(cacheGet, 0, ret(timeNow, 0).ns < ret(cacheGet, 0, 0).expirationTime.ns) && !lazyCacheEnabled ==> result_0 == nil && !result_1 && calls(msgCopy) == 0
+
+//@ func copyNoOpt
+//@   nobody
+//@   log copyNoOpt
+//@   modifies *
+//@   ensures (m == nil) == (result == nil)
+//@   ensures m != nil ==> fresh(result)
